@@ -33,3 +33,16 @@ func TestNumIsNumber(t *testing.T) {
 		}
 	})
 }
+
+// depth shapes with a trailing member are well-formed exactly when fully closed
+func TestNestAfter(t *testing.T) {
+	rapid.Check(t, func(rt *rapid.T) {
+		n := DrawNest(rt, []int{1, 2, 3, 5, 17})
+		n.Trail = ""
+		doc := n.Build()
+		end := ref.Skip(doc, 1<<30)
+		if want := n.Close == n.Depth; (end >= 0) != want {
+			rt.Fatalf("spec %+v: %q well-formed=%v want %v", n, doc, end >= 0, want)
+		}
+	})
+}
